@@ -5,6 +5,26 @@ import json, os, subprocess
 HERE = os.path.dirname(os.path.dirname(os.path.abspath(__file__)))
 
 CHECKS = {
+ "C07": dict(
+   category="exploration", design="DESIGN.md §5 C07",
+   technique="property-based testing against an independent reference evaluator: type-directed generated expression trees over int/float/bool/string/list, compiled and played, printed text and typed get_variable value compared with the evaluator's result",
+   text="Generator and evaluator are one recursive procedure, so every generated expression carries the value Ink's rules give it (coercion, integer division and remainder, comparisons, logic, MIN/MAX/POW/FLOOR/CEILING/INT/FLOAT, string concatenation and containment, list algebra as sets of (origin, item, value), list comparisons, LIST_* functions, list-from-int, empty lists with and without origins). Programs pack 8-20 expressions, each assigned, printed and printed inline, across choice points. Exploration only.",
+   note="The evaluator (harness/src/c07.rs) is the trusted base; constructs whose result Ink leaves open (ties in LIST_MIN/MAX) or makes an error (exactly one list operand) are not generated."),
+ "C14": dict(
+   category="exploration", design="DESIGN.md §5 C14",
+   technique="property-based differential testing between two builds (default loader / streaming loader) over corpus and generated documents with injected hostile strings and value-preserving re-serialisations; digests of audit listing + transcript compared across builds and across forms",
+   text="Every document (corpus reference JSON, compiler output for the corpus, compiled generated programs, with hostile strings injected) and its re-serialisations (\\uXXXX escapes incl. surrogate pairs, long-form escapes, pretty-printed with CR/LF/tabs, float-looking number forms) is loaded by both loaders in separate processes; a digest of every object's path and content, the global tags and a bounded exploration must agree; forms (a)-(c) must also agree with the original within a build. Exploration only.",
+   note="Listing comes from the content-audit hook; the streaming build is a second build of the same harness (--features stream)."),
+ "C18": dict(
+   category="exploration", design="DESIGN.md §5 C18",
+   technique="property-based testing with a counting global allocator: generated, idiom and corpus programs x generated histories, repeated create-play-drop cycles and repeated reset/load rounds; invariant: live heap bytes return to / stay at the baseline",
+   text="The harness binary counts live heap bytes per thread. After two warm-up cycles every create -> play -> drop cycle must leave the live byte count exactly where it was, and repeated reset+replay rounds and repeated load_state of one save on one instance must not raise it above the first measured round. Exploration only.",
+   note="Exact equality; per-thread counters; histories are replayed identically in every cycle."),
+ "C19": dict(
+   category="exploration", design="DESIGN.md §5 C19",
+   technique="property-based round-trip testing over every runtime object of corpus and generated stories (content-audit hook): path -> object identity, path text round trip, Eq => Hash, relative paths between object pairs (all pairs for small stories, sampled otherwise)",
+   text="For every object of every corpus story (reference JSON and this compiler's output) and of compiled generated programs: its reported path resolves back to it without approximation, parse(text(path)) == path with an equal hash; for pairs of objects the relative path round-trips through text (stays relative, equal hash), resolves to the target, composes with the source path, and the compact path string resolves. Exhaustive over the objects of the documents explored; the documents are sampled.",
+   note="Facts are produced by the hook (runtime's own primitives); the judgement is in the harness. Save positions (cPath+idx) are covered by C02."),
  "C12": dict(
    category="exploration", design="DESIGN.md §5 C12",
    technique="property-based testing against a by-construction reference: generated chain programs with external calls in every syntactic position x {safe, unsafe, fallback, disallowed}; call log (arguments, order, lines delivered) and output compared with the reference sequence",
